@@ -132,6 +132,7 @@ func parseFrame(s *tokStream) (*frame, error) {
 				return nil, fmt.Errorf("bad create kind")
 			}
 			a.two = two == 1
+			a.mayCollide = a.two
 			if a.salt, err = s.num(); err != nil {
 				return nil, err
 			}
